@@ -155,7 +155,8 @@ def eta_parity(J, P, s1, P1, s2, P2) -> int:
 
 def synth_spec(rng, n_final: int | None = None, formalism: str = "helicity", max_spin2: int = 4,
                topo_index: int | None = None, allow_massless: bool = True, parity_mode: str | None = None,
-               identical_scalars: bool = False, partial: str | None = None, max_transitions: int = 400) -> dict:
+               identical_scalars: bool = False, partial: str | None = None, max_transitions: int = 400,
+               shuffle_names: bool = False) -> dict:
     """Draw a JSON-able description of a synthetic single-topology reaction."""
     from qrules.topology import create_isobar_topologies  # noqa: PLC0415
 
@@ -206,7 +207,15 @@ def synth_spec(rng, n_final: int | None = None, formalism: str = "helicity", max
         pnodes = []
     else:
         pnodes = [n for n in nodes if rng.uniform() < 0.5]
+    names = None
+    if shuffle_names:
+        # particle names whose alphabetical order is uncorrelated with the edge ids (ampform sorts the two
+        # daughters of a node by *name* for coefficient naming, by *id* elsewhere)
+        letters = list("BCDEGHKLMNPQSTUVWXYZ")
+        rng.shuffle(letters)
+        names = {str(e): f"{letters[k % len(letters)]}{e}" for k, e in enumerate(sorted(top.edges)) if e != init}
     return {
+        "names": names,
         "kind": "synth", "n_final": n_final, "topo_index": ti, "formalism": formalism,
         "spins2": {str(k): v for k, v in spins2.items()}, "parity": {str(k): v for k, v in parity.items()},
         "mass": {str(k): v for k, v in mass.items()}, "parity_nodes": [int(n) for n in pnodes],
@@ -228,17 +237,20 @@ def build_synth(spec: dict):
     init = next(iter(top.incoming_edge_ids))
     finals = sorted(top.outgoing_edge_ids)
     particles = {}
+    custom = spec.get("names") or {}
     for eid in sorted(top.edges):
+        twin = bool(spec.get("identical_scalars")) and eid == finals[-1]
+        src = finals[-2] if twin else eid
         if eid == init:
             name = "A"
+        elif str(src) in custom:
+            name = custom[str(src)]
         elif eid in finals:
-            name = f"F{eid}"
-            if spec.get("identical_scalars") and eid == finals[-1]:
-                name = f"F{finals[-2]}"
+            name = f"F{src}"
         else:
             name = f"R{eid}"
         width = 0.0 if (eid in finals or eid == init) else round(0.05 + 0.01 * (eid % 7), 3)
-        particles[eid] = make_particle(name, spins[eid], parity[eid], mass[eid], width, pid=100 + (finals[-2] if name == f"F{finals[-2]}" and eid == finals[-1] else eid))
+        particles[eid] = make_particle(name, spins[eid], parity[eid], mass[eid], width, pid=100 + src)
     nodes = sorted(top.nodes)
     pnodes = set(spec["parity_nodes"])
     canonical = spec["formalism"] != "helicity"
@@ -344,6 +356,33 @@ def get_reaction(desc: dict):
 
         r = relabel_edge_ids(r)
     return r
+
+
+def massless_alignment_features(reaction, align: str) -> dict:
+    """Mechanism-level features of the two axis-angle defects with massless particles (known findings):
+    (a) a massless final-state particle of *integer* spin >= 1: its rotation sums skip projection 0, so the
+        spin rotation is not unitary; (b) a massless spinful final-state particle that is not attached to the
+        initial state: its Wigner rotation needs BoostMatrix(-p) with beta = 1 (NaN).
+    A massless spin-1/2 particle attached to the initial state has neither."""
+    integer = inner = False
+    seen = set()
+    for t in reaction.transitions:
+        top = t.topology
+        if top in seen:
+            continue
+        seen.add(top)
+        init = set(top.incoming_edge_ids)
+        for i in top.outgoing_edge_ids:
+            part = t.states[i].particle
+            if part.mass == 0 and part.spin > 0:
+                if float(part.spin) % 1 == 0:
+                    integer = True
+                if parent_edge(top, i) not in init:
+                    inner = True
+    aa = align == "axisangle"
+    return {"axisangle_massless_integer_spin": aa and integer,
+            "axisangle_massless_wigner_rotated": aa and inner,
+            "axisangle_massless_integer_spin_or_wigner_rotated": aa and (integer or inner)}
 
 
 def spin_content(reaction) -> str:
